@@ -44,6 +44,8 @@ class Bail(Exception):
 
 NONNULL_CONSTS = set()     # dumps of `constants.NAME` expressions whose value is a literal other than None (filled by the loader)
 CLASS_METHODS = {}    # class name (defined once in the package) -> {method: (params without self, number of defaults)}
+RET_ARITY_CLS = {}        # (class name, method name) -> n, likewise, for classes defined once
+RET_ARITY = {}            # function / method name (defined once in the package) -> n when every return is a tuple display of n elements
 SENTINELS = {}            # modname -> names bound once, at module level, to a fresh `object()` (private markers)
 FOREIGN_HOME_MODULES = set()     # top-level module names of the package (filled by the loader)
 FOREIGN_FUNCS = {}    # module-level functions of top-level package modules, likewise (callers import them by name)
@@ -374,6 +376,64 @@ def flatten_new_bases(trees, known_classes, log=None):
                     if isinstance(st, ast.ImportFrom):
                         st.names[:] = [a for a in st.names if a.name != name] or st.names
     return log
+
+
+def build_ret_arity(trees):
+    """name -> n when every definition of that name in the package (the sync and the async twin, say) returns tuple displays of n elements on
+    every path, or hands on the result of such a function."""
+    trees = list(trees)
+
+    def arity(fn, known):
+        if any(isinstance(n, (ast.Yield, ast.YieldFrom)) for n, _ins in _fn_nodes(fn)):
+            return None
+        rets = [n for n, _ins in _fn_nodes(fn) if isinstance(n, ast.Return)]
+        ar = set()
+        for r in rets:
+            v = r.value.value if isinstance(r.value, ast.Await) else r.value
+            if isinstance(v, ast.Tuple) and not any(isinstance(x, ast.Starred) for x in v.elts):
+                ar.add(len(v.elts))
+            elif isinstance(v, ast.Call) and isinstance(v.func, ast.Attribute) and v.func.attr in known:
+                ar.add(known[v.func.attr])
+            else:
+                ar.add(None)
+        def never_falls_off(body):
+            if always_leaves_function(body):
+                return True
+            last = body[-1] if body else None
+            if isinstance(last, ast.While) and _is_const_true(last.test) and not _own_breaks(last.body) and not last.orelse:
+                return True
+            if isinstance(last, (ast.With, ast.AsyncWith)):
+                return never_falls_off(last.body)
+            return False
+        if rets and len(ar) == 1 and None not in ar and never_falls_off(fn.body):
+            return next(iter(ar))
+        return None
+    out = {}
+    for _round in range(2):
+        per = {}
+        for t in trees:
+            for fn in ast.walk(t):
+                if isinstance(fn, (ast.FunctionDef, ast.AsyncFunctionDef)):
+                    per.setdefault(fn.name, set()).add(arity(fn, out))
+        out = {k: next(iter(v)) for k, v in per.items() if len(v) == 1 and None not in v and k not in _CONTAINER_METHODS}
+    RET_ARITY_CLS.clear()
+    cseen = {}
+    for t in trees:
+        for cls in t.body:
+            if isinstance(cls, ast.ClassDef):
+                cseen[cls.name] = cseen.get(cls.name, 0) + 1
+    for t in trees:
+        for cls in t.body:
+            if isinstance(cls, ast.ClassDef) and cseen[cls.name] == 1:
+                for fn in cls.body:
+                    if isinstance(fn, (ast.FunctionDef, ast.AsyncFunctionDef)):
+                        if any(isinstance(n, (ast.Yield, ast.YieldFrom)) for n, _ins in _fn_nodes(fn)):
+                            continue
+                        rets = [n for n, _ins in _fn_nodes(fn) if isinstance(n, ast.Return)]
+                        ar = set(len(r.value.elts) if isinstance(r.value, ast.Tuple) and not any(isinstance(x, ast.Starred) for x in r.value.elts) else None for r in rets)
+                        if rets and len(ar) == 1 and None not in ar and always_leaves_function(fn.body):
+                            RET_ARITY_CLS[(cls.name, fn.name)] = next(iter(ar))
+    return out
 
 
 def build_class_methods(trees):
@@ -993,7 +1053,7 @@ class FuncCanon(object):
         changed = False
         for blk in _all_blocks(self.fn):
             top = blk is self.fn.body
-            if self.star(blk) or self.callsel(blk) or self.tuplepush(blk) or self.sumloop(blk) or self.listcomp(blk) or self.unroll(blk) or self.lockwith(blk) or self.flagloop(blk) or self.thread(blk) or self.deadstore(blk) or self.kw(blk) or self.split(blk) or self.retsplit(blk) or self.yieldsplit(blk) or self.forelse(blk) or self.dowhile(blk) or self.withsink(blk) or self.testsplit(blk) or self.rot(blk) or self.brk(blk, top) or self.wtop(blk) or self.ifs(blk) or self.sink(blk) or self.unpack(blk) or self.fwd(blk):
+            if self.star(blk) or self.callsel(blk) or self.tuplepush(blk) or self.sumloop(blk) or self.listcomp(blk) or self.unroll(blk) or self.lockwith(blk) or self.flagloop(blk) or self.thread(blk) or self.deadstore(blk) or self.kw(blk) or self.split(blk) or self.retsplit(blk) or self.unindex(blk) or self.yieldsplit(blk) or self.forelse(blk) or self.dowhile(blk) or self.withsink(blk) or self.testsplit(blk) or self.rot(blk) or self.brk(blk, top) or self.wtop(blk) or self.ifs(blk) or self.sink(blk) or self.unpack(blk) or self.fwd(blk):
                 return True
         return changed
 
@@ -1047,6 +1107,15 @@ class FuncCanon(object):
                         return True
             if not isinstance(st, ast.If):
                 continue
+            # `if a: if b: S`  ->  `if a and b: S`   (neither has an else)
+            if not st.orelse and len(st.body) == 1 and isinstance(st.body[0], ast.If) and not st.body[0].orelse:
+                inner = st.body[0]
+                vals = (list(st.test.values) if isinstance(st.test, ast.BoolOp) and isinstance(st.test.op, ast.And) else [st.test]) + \
+                    (list(inner.test.values) if isinstance(inner.test, ast.BoolOp) and isinstance(inner.test.op, ast.And) else [inner.test])
+                st.test = ast.copy_location(ast.BoolOp(op=ast.And(), values=vals), st.test)
+                st.body = inner.body
+                self.bump("IFAND")
+                return True
             t = st.test
             # a constant test (a helper inlined with a literal flag): keep the arm that runs
             if isinstance(t, ast.Constant):
@@ -1691,6 +1760,40 @@ class FuncCanon(object):
                 blk[i:i + 1] = [ast.copy_location(ast.If(test=v.test, body=[r1], orelse=[]), st), r2]
                 self.bump("RETSPLIT")
                 return True
+        return False
+
+    # -- UNINDEX ---------------------------------------------------------------------------------------------------
+    def unindex(self, blk):
+        """`v = self.f(..)[k]`  ->  `_, .., v, .., _ = self.f(..)`   for a package function that always returns an n-tuple (`await` likewise):
+        taking one element of the result and unpacking it are the same thing when the length is known."""
+        for i, st in enumerate(blk):
+            if not (isinstance(st, ast.Assign) and len(st.targets) == 1 and isinstance(st.targets[0], (ast.Name, ast.Attribute)) and isinstance(st.value, ast.Subscript)):
+                continue
+            sub = st.value
+            k = sub.slice.value if isinstance(sub.slice, ast.Constant) else None
+            if not (isinstance(k, int) and not isinstance(k, bool)):
+                continue
+            c = sub.value.value if isinstance(sub.value, ast.Await) else sub.value
+            if not (isinstance(c, ast.Call) and isinstance(c.func, ast.Attribute)):
+                continue
+            r = c.func.value
+            if isinstance(r, ast.Name) and r.id == self._self_name():
+                n = RET_ARITY.get(c.func.attr)
+            elif isinstance(r, ast.Attribute) and isinstance(r.value, ast.Name) and r.value.id == self._self_name() and r.attr in self.attrtypes:
+                n = RET_ARITY_CLS.get((self.attrtypes[r.attr], c.func.attr))
+            else:
+                continue
+            if n is None or not (-n <= k < n) or self.stores.get("_") and "_" in self.captured:
+                continue
+            k = k % n
+            elts = [ast.Name(id="_", ctx=ast.Store()) for _x in range(n)]
+            tgt = st.targets[0]
+            elts[k] = tgt
+            st.targets = [ast.copy_location(ast.Tuple(elts=elts, ctx=ast.Store()), tgt)]
+            st.value = sub.value
+            ast.fix_missing_locations(st)
+            self.bump("UNINDEX")
+            return True
         return False
 
     # -- YIELDSPLIT ------------------------------------------------------------------------------------------------
@@ -3344,6 +3447,8 @@ if __name__ == "__main__":
     CLASS_METHODS.update(build_class_methods(trees.values()))
     FOREIGN.clear()
     FOREIGN.update(build_foreign(trees, KNOWN))
+    RET_ARITY.clear()
+    RET_ARITY.update(build_ret_arity(trees.values()))
     canonicalise(t, modname, KNOWN, st, lg)
     want = sys.argv[3:]
     for node in ast.walk(t):
